@@ -140,7 +140,7 @@ func rulesC05(c *Ctx) {
 					okW = false
 					continue
 				}
-				inInc := incSite.Lit.Lit.Pos() <= w.Pos() && w.End() <= incSite.Lit.Lit.End()
+				inInc := encloses(incSite.Lit.Lit, w)
 				if v := exprStr(as.Rhs[0]); !(v == "true" && inInc) && !(v == "false" && as.Tok == token.DEFINE && !inInc) {
 					okW = false
 				}
